@@ -575,12 +575,162 @@ func (e *env) twoPhase(parts [][]*File, withDirs bool) ([]Viol, error) {
 	return violsOfReport(rep), nil
 }
 
+// ---------------------------------------------------------------- a client along a history
+
+// Op: one thing a client (or the language server) does between two states of a history
+type Op struct {
+	Op   string `json:"op"` // setfile | delete
+	ID   int    `json:"id,omitempty"`
+	Name string `json:"name,omitempty"`
+}
+
+// opsOf: the operations that lead through the states (initially: every file linted on its own, in order; then per
+// state: removals in name order, then the new or changed files in the order of the state)
+func opsOf(states [][]*File) [][]Op {
+	var out [][]Op
+	var ops []Op
+	cur := map[string]int{}
+	for si, st := range states {
+		next := map[string]int{}
+		for _, f := range st {
+			next[f.Name] = f.ID
+		}
+		if si > 0 {
+			var gone []string
+			for n := range cur {
+				if _, ok := next[n]; !ok {
+					gone = append(gone, n)
+				}
+			}
+			sort.Strings(gone)
+			for _, n := range gone {
+				ops = append(ops, Op{Op: "delete", Name: n})
+			}
+		}
+		for _, f := range st {
+			if old, ok := cur[f.Name]; ok && old == f.ID {
+				continue
+			}
+			ops = append(ops, Op{Op: "setfile", ID: f.ID, Name: f.Name})
+		}
+		cur = next
+		out = append(out, append([]Op{}, ops...))
+	}
+	return out
+}
+
+// client: per-file collects (memoised: only a changed file is re-collected) and ONE directive map that is updated
+// from the Report.IgnoreDirectives of every run, in the order of the operations; then the report-only run over the
+// merged exports of the current files.  mixed: the file of the last operation is linted by the reporting run
+// itself, which is handed the directive map of before that operation.
+func (e *env) client(ops []Op, byID map[int]*File, snapshot []*File, mixed bool) ([]Viol, error) {
+	dirs := map[string]map[string][]string{}
+	for i, op := range ops {
+		if mixed && i == len(ops)-1 {
+			break
+		}
+		switch op.Op {
+		case "setfile":
+			c := e.collect([]*File{byID[op.ID]}, true)
+			if c.err != nil {
+				return nil, c.err
+			}
+			for f, d := range c.dirs {
+				dirs[f] = d
+			}
+		case "delete":
+			delete(dirs, op.Name)
+		}
+	}
+	merged := map[string][]report.Aggregate{}
+	for _, f := range snapshot {
+		c := e.collect([]*File{f}, true)
+		if c.err != nil {
+			return nil, c.err
+		}
+		for k, a := range c.aggs {
+			merged[k] = append(merged[k], a...)
+		}
+	}
+	l := e.baseLinter().WithAggregates(merged).WithIgnoreDirectives(dirs)
+	if mixed {
+		in := inputOf([]*File{byID[ops[len(ops)-1].ID]})
+		l = l.WithInputModules(&in)
+	}
+	rep, err := l.Lint(context.Background())
+	if err != nil {
+		return nil, err
+	}
+	return violsOfReport(rep), nil
+}
+
+// ---------------------------------------------------------------- versions of a file that differ in their directives
+
+func stripDirectives(text string) string {
+	ls := strings.Split(strings.TrimSuffix(text, "\n"), "\n")
+	for i, l := range ls {
+		idx := strings.Index(l, "regal ignore:")
+		if idx < 0 {
+			continue
+		}
+		h := strings.LastIndex(l[:idx], "#")
+		if h < 0 {
+			continue
+		}
+		if strings.TrimSpace(l[:h]) == "" {
+			ls[i] = l[:h] + "# plain comment"
+		} else {
+			ls[i] = strings.TrimRight(l[:h], " \t")
+		}
+	}
+	return strings.Join(ls, "\n") + "\n"
+}
+
+// versionOf: the directive-free text with one directive put in; ok=false when that version does not exist
+func versionOf(stripped string, kind string, row int, title, other string) (string, bool) {
+	ls := strings.Split(strings.TrimSuffix(stripped, "\n"), "\n")
+	if row < 1 || row > len(ls) || strings.Contains(ls[row-1], "#") {
+		return "", false
+	}
+	switch kind {
+	case "none":
+	case "rule-same":
+		ls[row-1] += " # regal ignore:" + title
+	case "rule-list":
+		ls[row-1] += " # regal ignore: " + other + " ,\t" + title
+	case "other":
+		ls[row-1] += " # regal ignore:" + other
+	case "rule-above":
+		if row < 2 {
+			return "", false
+		}
+		ls = append(append(append([]string{}, ls[:row-1]...), "# regal ignore:"+title), ls[row-1:]...)
+	case "other-row":
+		u := 0
+		for i := range ls {
+			if i+1 != row && i+2 != row && !strings.Contains(ls[i], "#") && strings.TrimSpace(ls[i]) != "" {
+				u = i + 1
+				break
+			}
+		}
+		if u == 0 {
+			return "", false
+		}
+		ls[u-1] += " # regal ignore:" + title
+	default:
+		return "", false
+	}
+	return strings.Join(ls, "\n") + "\n", true
+}
+
 // ---------------------------------------------------------------- records
 
 type Run struct {
 	Kind  string  `json:"kind"` // "run"
 	WS    string  `json:"ws"`
-	Mode  string  `json:"mode"` // oneshot | twophase | twophase-nodirs
+	Mode  string  `json:"mode"` // oneshot | twophase | twophase-nodirs | client | client-mixed
+	Ops   []Op    `json:"ops,omitempty"`   // client modes: what the client did so far (re-lint of one file / removal)
+	Mixed int     `json:"mixed,omitempty"` // client-mixed: id of the file the reporting run lints itself
 	Parts [][]int `json:"parts"`
 	Src   string  `json:"src"` // partition | order | history
 	Obs   []Viol  `json:"obs"`
@@ -597,6 +747,7 @@ type CollectRec struct {
 	UseCollect bool             `json:"use_collect"`
 	Keys       map[string][]int `json:"keys"` // exported key -> entry ids (sorted); a key with no entries is the marker
 	DirFiles   []string         `json:"dir_files"`
+	Dirs       map[string]map[string][]string `json:"dirs"` // Report.IgnoreDirectives: file -> row key -> rule names
 	Obs        []Viol           `json:"obs"` // aggregate violations reported by the collect run itself
 	Err        string           `json:"err,omitempty"`
 }
@@ -640,8 +791,13 @@ func (e *env) collectRec(ws string, part []*File, useCollect bool) CollectRec {
 		sort.Ints(l)
 		rec.Keys[k] = l
 	}
-	for f := range c.dirs {
+	rec.Dirs = map[string]map[string][]string{}
+	for f, d := range c.dirs {
 		rec.DirFiles = append(rec.DirFiles, f)
+		if d == nil {
+			d = map[string][]string{}
+		}
+		rec.Dirs[f] = d
 	}
 	rec.Obs = append(rec.Obs, c.viols...)
 	sort.Strings(rec.DirFiles)
@@ -778,6 +934,151 @@ func genWorkspace(r *hutil.Rng, idx int, n int) wsDef {
 	return w
 }
 
+// ---------------------------------------------------------------- histories over directive versions
+
+// dirHistories: for up to n aggregate violations of the workspace (found by linting the directive-free files), a
+// history of single-file replacements in which the violation's file walks through its versions {no directive at
+// all, directive naming the rule on the same line / the line above / in a list, directive naming another rule,
+// directive naming the rule on another row}: first add, remove, add again, then a random walk that keeps coming
+// back to "none"; now and then another file is replaced in between.
+func dirHistories(e *env, r *hutil.Rng, mk func([2]string) *File, files, alts []*File, n, length int) ([]*File, [][][]*File) {
+	var versions []*File
+	stripped := map[string]*File{}
+	var sfiles []*File
+	for _, f := range files {
+		t := stripDirectives(f.Text)
+		if t == f.Text {
+			stripped[f.Name] = f
+		} else {
+			nf := mk([2]string{f.Name, t})
+			versions = append(versions, nf)
+			stripped[f.Name] = nf
+		}
+		sfiles = append(sfiles, stripped[f.Name])
+	}
+	if len(files) < 2 {
+		return versions, nil
+	}
+	raw0, err := e.oneShot(sfiles)
+	must(err)
+	var targets []Viol
+	var titles []string
+	seen := map[string]bool{}
+	for _, v := range raw0 {
+		known := false
+		for _, t := range titles {
+			known = known || t == v.Title
+		}
+		if !known {
+			titles = append(titles, v.Title)
+		}
+		sf, ok := stripped[v.File]
+		k := fmt.Sprintf("%s|%d|%s", v.File, v.Row, v.Title)
+		if !ok || v.Row == 0 || seen[k] {
+			continue
+		}
+		if _, ok := versionOf(sf.Text, "rule-same", v.Row, v.Title, "x"); !ok {
+			continue
+		}
+		seen[k] = true
+		targets = append(targets, v)
+	}
+	hutil.Shuffle(r, targets)
+	var spread, rest []Viol
+	seenTitle := map[string]bool{}
+	for _, t := range targets {
+		if seenTitle[t.Title] {
+			rest = append(rest, t)
+		} else {
+			seenTitle[t.Title] = true
+			spread = append(spread, t)
+		}
+	}
+	targets = append(spread, rest...)
+	if len(targets) > n {
+		targets = targets[:n]
+	}
+	var hists [][][]*File
+	for _, tv := range targets {
+		other := "some-other-rule"
+		for _, t := range titles {
+			if t != tv.Title && r.Below(2) == 0 {
+				other = t
+				break
+			}
+		}
+		memo := map[string]*File{"none": stripped[tv.File]}
+		version := func(kind string) *File {
+			if f, ok := memo[kind]; ok {
+				return f
+			}
+			var f *File
+			if text, ok := versionOf(stripped[tv.File].Text, kind, tv.Row, tv.Title, other); ok {
+				if _, err := rules.InputFromMap(map[string]string{tv.File: text}, nil); err == nil {
+					f = mk([2]string{tv.File, text})
+					versions = append(versions, f)
+				}
+			}
+			memo[kind] = f
+			return f
+		}
+		cur := append([]*File{}, files...)
+		states := [][]*File{append([]*File{}, cur...)}
+		curKind := ""
+		put := func(f *File) {
+			changed := false
+			for i, g := range cur {
+				if g.Name == f.Name && g.ID != f.ID {
+					cur[i] = f
+					changed = true
+				}
+			}
+			if changed {
+				states = append(states, append([]*File{}, cur...))
+			}
+		}
+		push := func(kind string) {
+			if f := version(kind); f != nil {
+				put(f)
+				curKind = kind
+			}
+		}
+		kinds := []string{"none", "rule-same", "rule-above", "rule-list", "other", "other-row"}
+		push("rule-same")
+		push("none")
+		push(hutil.Choice(r, []string{"rule-same", "rule-above", "rule-list"}))
+		for guard := 0; len(states) <= length && guard < 4*length; guard++ {
+			if r.Below(4) == 0 { // another file: its directive-free version, its original, or an alternate of the same name
+				var cands []*File
+				for _, f := range files {
+					if f.Name != tv.File {
+						cands = append(cands, f, stripped[f.Name])
+					}
+				}
+				for _, a := range alts {
+					if a.Name != tv.File && stripped[a.Name] != nil {
+						cands = append(cands, a)
+					}
+				}
+				if len(cands) > 0 {
+					put(hutil.Choice(r, cands))
+				}
+				continue
+			}
+			k := hutil.Choice(r, kinds)
+			if k == curKind || (curKind != "none" && k != "none" && r.Below(2) == 0) {
+				if curKind == "none" {
+					continue
+				}
+				k = "none"
+			}
+			push(k)
+		}
+		hists = append(hists, states)
+	}
+	return versions, hists
+}
+
 // ---------------------------------------------------------------- driver
 
 type job func()
@@ -870,7 +1171,17 @@ func runWorkspace(e *env, r *hutil.Rng, out *hutil.Out, d wsDef, thorough bool) 
 	for _, nt := range d.alts {
 		alts = append(alts, mk(nt))
 	}
-	out.Emit(WS{Kind: "ws", WS: d.name, Files: append(append([]*File{}, files...), alts...), BRules: e.bKeys, CKeys: e.cKeys})
+	// histories in which a file goes from some directives to none and back (the versions are files of their own)
+	nDirHist, lenDirHist := 1, 6
+	if thorough {
+		nDirHist, lenDirHist = 3, 10
+	}
+	versions, dirHists := dirHistories(e, r, mk, files, alts, nDirHist, lenDirHist)
+	out.Emit(WS{Kind: "ws", WS: d.name, Files: append(append(append([]*File{}, files...), alts...), versions...), BRules: e.bKeys, CKeys: e.cKeys})
+	byID := map[int]*File{}
+	for _, f := range append(append(append([]*File{}, files...), alts...), versions...) {
+		byID[f.ID] = f
+	}
 	table := &oracleTable{seen: map[string]*Oracle{}}
 	var mu sync.Mutex
 	var recs []any
@@ -938,6 +1249,37 @@ func runWorkspace(e *env, r *hutil.Rng, out *hutil.Out, d wsDef, thorough bool) 
 				}
 			} else {
 				rec.PredOK = true
+			}
+			add(rec)
+		}
+	}
+	clientJob := func(ops []Op, snapshot []*File, src string, mixed bool) job {
+		return func() {
+			var parts [][]*File
+			for _, f := range snapshot {
+				parts = append(parts, []*File{f})
+			}
+			rec := Run{Kind: "run", WS: d.name, Mode: "client", Parts: idParts(parts), Src: src, Ops: ops}
+			if mixed {
+				rec.Mode, rec.Mixed = "client-mixed", ops[len(ops)-1].ID
+			}
+			obs, err := e.client(ops, byID, snapshot, mixed)
+			if err != nil {
+				rec.Err = err.Error()
+				rec.Obs = []Viol{}
+				add(rec)
+				return
+			}
+			rec.Obs = obs
+			rec.PredOK = true
+			if len(snapshot) > 1 {
+				one, err := getOneShot(snapshot)
+				if err != nil {
+					rec.Err = "one-shot: " + err.Error()
+				} else {
+					rec.OneShot = one
+					rec.PredOK = sameViols(one, obs)
+				}
 			}
 			add(rec)
 		}
@@ -1026,6 +1368,7 @@ func runWorkspace(e *env, r *hutil.Rng, out *hutil.Out, d wsDef, thorough bool) 
 	for h := 0; h < nHist; h++ {
 		cur := append([]*File{}, files...)
 		states := [][]int{ids(files)}
+		fstates := [][]*File{append([]*File{}, files...)}
 		for s := 0; s < lenHist; s++ {
 			switch op := r.Below(5); {
 			case op <= 2 && len(alts) > 0: // replace or add
@@ -1048,16 +1391,44 @@ func runWorkspace(e *env, r *hutil.Rng, out *hutil.Out, d wsDef, thorough bool) 
 			}
 			snapshot := append([]*File{}, cur...)
 			states = append(states, ids(snapshot))
+			fstates = append(fstates, snapshot)
+		}
+		allOps := opsOf(fstates)
+		for s := 1; s < len(fstates); s++ {
+			snapshot := fstates[s]
 			e.oracleFor(table, r, snapshot, out)
-			var parts [][]*File
 			for _, f := range snapshot {
-				parts = append(parts, []*File{f})
 				needCollect([]*File{f})
 			}
-			jobs = append(jobs, twoPhaseJob(parts, fmt.Sprintf("history%d.%d", h, s), true))
-			jobs = append(jobs, oneShotJob(snapshot, fmt.Sprintf("history%d.%d", h, s)))
+			// a client that keeps ONE directive map along the history (not a map rebuilt from the current files)
+			jobs = append(jobs, clientJob(allOps[s], snapshot, fmt.Sprintf("history%d.%d", h, s-1), false))
+			jobs = append(jobs, oneShotJob(snapshot, fmt.Sprintf("history%d.%d", h, s-1)))
 		}
-		out.Emit(map[string]any{"kind": "history", "ws": d.name, "h": h, "states": states})
+		out.Emit(map[string]any{"kind": "history", "ws": d.name, "h": h, "states": states, "lsp": h == 0 || thorough, "src": "general"})
+	}
+	for h, fstates := range dirHists {
+		var states [][]int
+		for _, st := range fstates {
+			states = append(states, ids(st))
+		}
+		allOps := opsOf(fstates)
+		for _, f := range fstates[0] {
+			needCollect([]*File{f})
+		}
+		for s := 1; s < len(fstates); s++ {
+			snapshot := fstates[s]
+			e.oracleFor(table, r, snapshot, out)
+			for _, f := range snapshot {
+				needCollect([]*File{f})
+			}
+			src := fmt.Sprintf("dirhistory%d.%d", h, s-1)
+			jobs = append(jobs, clientJob(allOps[s], snapshot, src, false))
+			if len(allOps[s]) == len(allOps[s-1])+1 && allOps[s][len(allOps[s])-1].Op == "setfile" {
+				jobs = append(jobs, clientJob(allOps[s], snapshot, src, true))
+			}
+			jobs = append(jobs, oneShotJob(snapshot, src))
+		}
+		out.Emit(map[string]any{"kind": "history", "ws": d.name, "h": nHist + h, "states": states, "lsp": true, "src": "directives"})
 	}
 	runJobs(jobs)
 	// deterministic output order
@@ -1114,6 +1485,20 @@ func replay(e *env, r *hutil.Rng, out *hutil.Out, path string) {
 		obs, err := e.oneShot(flat)
 		must(err)
 		rec.Obs, rec.PredOK = obs, true
+	case "client", "client-mixed":
+		for _, op := range rec.Ops {
+			if op.Op == "setfile" {
+				out.Emit(e.collectRec(rp.Case.Run.WS, []*File{byID[op.ID]}, true))
+			}
+		}
+		obs, err := e.client(rec.Ops, byID, flat, rec.Mode == "client-mixed")
+		must(err)
+		rec.Obs = obs
+		one, err := e.oneShot(flat)
+		must(err)
+		rec.OneShot = one
+		rec.PredOK = len(flat) < 2 || sameViols(one, obs)
+		out.Emit(Run{Kind: "run", WS: rec.WS, Mode: "oneshot", Parts: [][]int{ids(flat)}, Src: "replay", Obs: one, PredOK: true})
 	default:
 		obs, err := e.twoPhase(parts, rec.Mode == "twophase")
 		must(err)
